@@ -90,6 +90,9 @@ pub trait WorldApi {
     fn copy(&mut self, from: Slot, to: Slot);
     fn threads(&mut self, s: Slot, plan: &ThreadPlan) -> ThreadObs;
     fn serde_supported(&self, s: Slot) -> bool;
+    /// `Debug` output length of the container and of a view (C20: formatting must return normally);
+    /// also drives the `Default` iterators
+    fn debug_fmt(&mut self, s: Slot, q: EP) -> usize;
 }
 
 pub struct World<K: Kind> {
@@ -252,6 +255,10 @@ where
 // ---------------------------------------------------------------------------------------------
 
 fn obs_view<K: Kind, T: Val>(v: &TrieView<'_, K::P, T>, ok: bool) -> StepObs {
+    // `IntoIterator for TrieView` is the same traversal as `iter()`
+    let a: Vec<Item> = v.clone().into_iter().map(|(p, x)| it::<K, T>(p, x)).collect();
+    let b: Vec<Item> = v.iter().map(|(p, x)| it::<K, T>(p, x)).collect();
+    assert!(a == b, "ORACLE:TrieView::into_iter differs from iter()");
     StepObs {
         ok,
         prefix: K::dec(v.prefix()),
@@ -1530,6 +1537,37 @@ impl<K: Kind> WorldApi for World<K> {
         o.writes = all.len();
         o.log = all;
         o
+    }
+
+    fn debug_fmt(&mut self, s: Slot, q: EP) -> usize {
+        use std::fmt::Write;
+        let mut out = String::new();
+        // default-constructed iterators are empty and stay empty
+        {
+            let mut a: prefix_trie::map::Iter<'_, K::P, V> = Default::default();
+            let mut b: prefix_trie::map::IterMut<'_, K::P, V> = Default::default();
+            for _ in 0..2 {
+                assert!(a.next().is_none() && b.next().is_none(), "ORACLE:divergence default iterator yields an item");
+            }
+        }
+        match s {
+            Slot::Map(i) => {
+                write!(out, "{:?}", self.maps[i]).unwrap();
+                if let Some(v) = self.maps[i].view_at(K::mk(q)) {
+                    write!(out, "{:?}", v).unwrap();
+                }
+                if let Some(v) = (&mut self.maps[i]).view_mut_at(K::mk(q)) {
+                    write!(out, "{:?}", v).unwrap();
+                }
+            }
+            Slot::Set(i) => {
+                write!(out, "{:?}", self.sets[i]).unwrap();
+                if let Some(v) = self.sets[i].view_at(K::mk(q)) {
+                    write!(out, "{:?}", v).unwrap();
+                }
+            }
+        }
+        out.len()
     }
 
     fn serde_supported(&self, s: Slot) -> bool {
